@@ -585,6 +585,8 @@ struct TClient {
     bool closed{false};               // closed its socket while the loop was running
     bool reply_ok{false};
     bool send_failed{false};
+    bool saw_eof{false};              // the relay ended this connection (EOF / reset seen by the client)
+    int eof_errno{0};
     std::uint64_t seed{0};
 };
 
@@ -595,6 +597,8 @@ bool t_read(TClient& cl, int ms) {   // false on EOF / error
     const auto n = ::recv(cl.fd, buf, sizeof buf, MSG_DONTWAIT);
     if (n > 0) { cl.rx.append(buf, static_cast<std::size_t>(n)); return true; }
     if (n < 0 && (errno == EAGAIN || errno == EWOULDBLOCK || errno == EINTR)) return true;
+    cl.saw_eof = true;
+    cl.eof_errno = n < 0 ? errno : 0;
     return false;
 }
 bool t_send(TClient& cl, const std::string& bytes) {
@@ -764,8 +768,19 @@ void relay_threaded_case(Ctx& c, Rng& r, bool resources) {
         if (harness_errors.load()) { c.violation("harness:relay:connect-failed", "{}"); return; }
 
         // ---- single-threaded from here: serve what is still pending, drain the client sides
+        // bytes handed to the kernel but not yet in the receiver's queue (loopback delivery is deferred to softirq context and
+        // can lag on a loaded machine): the send queue of either end still holds them until they are acknowledged
+        auto in_flight = [&] {
+            long total = 0;
+            auto outq = [&](int fd) { int v = 0; if (fd >= 0 && ioctl(fd, TIOCOUTQ, &v) == 0 && v > 0) total += v; };
+            for (auto& x : cl) if (!x.saw_eof) outq(x.fd);   // a connection the relay has ended delivers nothing any more
+            for (auto& [fd, sp] : server.sessions_) { (void)sp; outq(fd); }
+            return total;
+        };
+        bool delivery_timeout = false;
         auto drain = [&] {
-            for (int round = 0; round < 400; ++round) {
+            int idle_waits = 0;
+            for (int round = 0; round < 100000; ++round) {
                 bool any = false;
                 for (auto& x : cl) if (x.fd >= 0) { const auto before = x.rx.size(); t_read(x, 0); if (x.rx.size() != before) any = true; }
                 server.accept_new_clients();
@@ -784,10 +799,21 @@ void relay_threaded_case(Ctx& c, Rng& r, bool resources) {
                         if (sp->closing || sp->write_buffer.size() != before) any = true;
                     }
                 }
-                if (!any) return;
+                if (any) { idle_waits = 0; continue; }
+                if (in_flight() == 0) return;
+                c.note("threaded.waits-for-loopback-delivery");
+                if (++idle_waits > 40000) { delivery_timeout = true; return; }   // 20 s without any progress: the harness cannot decide
+                ::usleep(500);
             }
         };
         drain();
+        if (delivery_timeout) {
+            std::string who;
+            for (auto& x : cl) { int v = 0; if (x.fd >= 0 && !x.saw_eof && ioctl(x.fd, TIOCOUTQ, &v) == 0 && v > 0) who += "client" + std::to_string(x.idx) + "(role" + std::to_string(x.role) + ",eof" + std::to_string(x.saw_eof) + "):" + std::to_string(v) + " "; }
+            for (auto& [fd, sp] : server.sessions_) { int v = 0; if (ioctl(fd, TIOCOUTQ, &v) == 0 && v > 0) who += "session(state" + std::to_string(static_cast<int>(sp->state)) + ",wb" + std::to_string(sp->write_buffer.size()) + "):" + std::to_string(v) + " "; }
+            c.violation("harness:relay:loopback-delivery-timeout", J().kv("mode", "threaded").kv("who", who).str());
+            return;
+        }
         c.note("threaded.runs");
 
         // ---- attribution (C25)
@@ -829,7 +855,9 @@ void relay_threaded_case(Ctx& c, Rng& r, bool resources) {
                 if (!cl[x].closed && !cl[y].closed && cl[y].sent_end && !cl[x].send_failed && !cl[y].send_failed) {
                     c.note("threaded.complete-directions-checked");
                     if (ntok != cl[y].sent.size() || cl[x].rx.find(t_end(cl[y])) == std::string::npos)
-                        c.violation("C25:delivery:bridged-bytes-lost-or-reordered", J().kv("from", y).kv("to", x).kv("sent", cl[y].sent.size()).kv("received", ntok).kv("mode", "threaded").str());
+                        c.violation("C25:delivery:bridged-bytes-lost-or-reordered", J().kv("from", y).kv("to", x).kv("sent", cl[y].sent.size()).kv("received", ntok).kv("mode", "threaded")
+                                        .kv("receiver_saw_eof", cl[x].saw_eof).kv("receiver_errno", cl[x].eof_errno).kv("sender_saw_eof", cl[y].saw_eof).kv("sender_errno", cl[y].eof_errno)
+                                        .kv("clients", n).kv("sessions_left", server.sessions_.size()).str());
                 }
                 if (x < y) ++bridges;
             }
@@ -843,12 +871,19 @@ void relay_threaded_case(Ctx& c, Rng& r, bool resources) {
             // ---- everybody leaves; then nothing may remain (C26)
             for (auto& x : cl) if (x.fd >= 0) { if (r.chance(1, 3)) { linger lg{1, 0}; setsockopt(x.fd, SOL_SOCKET, SO_LINGER, &lg, sizeof lg); } ::close(x.fd); x.fd = -1; }
             drain();
-            // a reset connection may only be noticed on the next event for it
-            for (int round = 0; round < 3; ++round) {
+            // every client end is closed now, so every remaining server-side socket is going to see FIN or RST; on a loaded machine
+            // that can arrive late: wait for it per socket (bounded), then serve the event
+            for (int round = 0; round < 3 && !delivery_timeout; ++round) {
                 std::vector<std::shared_ptr<RelayServer::ClientSession>> ss;
                 for (auto& [fd, sp] : server.sessions_) { (void)fd; ss.push_back(sp); }
-                for (auto& sp : ss) if (!sp->closing) server.on_client_event(sp, EventLoop::kEventReadable);
+                for (auto& sp : ss) {
+                    if (sp->closing) continue;
+                    pollfd p{sp->fd, POLLIN | POLLRDHUP, 0};
+                    if (poll(&p, 1, 20000) <= 0) { delivery_timeout = true; break; }
+                    server.on_client_event(sp, EventLoop::kEventReadable);
+                }
             }
+            if (delivery_timeout) { c.violation("harness:relay:loopback-delivery-timeout", J().kv("mode", "threaded").kv("phase", "release").str()); return; }
             c.note("release.all-clients-left");
             if (!server.sessions_.empty()) c.violation("C26:release:sessions-remain-after-all-clients-left", J().kv("sessions", server.sessions_.size()).kv("mode", "threaded").str());
             if (!server.registered_.empty()) c.violation("C26:release:registrations-remain-after-all-clients-left", J().kv("registrations", server.registered_.size()).kv("mode", "threaded").str());
